@@ -16,6 +16,7 @@ class Results:
     def __init__(self, prop):
         self.prop = prop
         self.records = []  # dicts
+        self._index = {}
         self.functions = set()
         self.sites = 0
         self.paths = 0
@@ -32,6 +33,13 @@ class Results:
             # violations are keyed without line numbers
             'key': '%s|%s|%s|%s' % (self.prop, rule, anchor, key if key is not None else what),
         }
+        # identical instances reached on several paths are one obligation (counted)
+        k = (r['key'], verdict)
+        old = self._index.get(k)
+        if old is not None:
+            old['count'] = old.get('count', 1) + 1
+            return old
+        self._index[k] = r
         self.records.append(r)
         return r
 
@@ -286,6 +294,20 @@ class Ctx:
             self._calls = idx
         return self._calls
 
+    def derived_fns(self):
+        if getattr(self, '_derived', None) is None:
+            d = set()
+            for im in self.f.impls:
+                if im['derived']:
+                    d.update(im['items'])
+            self._derived = d
+        return self._derived
+
+    def is_derived(self, body_path):
+        """body belongs to an impl generated by #[derive(..)] (or is a closure/const nested in one)"""
+        d = self.derived_fns()
+        return any(body_path == x or body_path.startswith(x + '::') for x in d)
+
     def calls_to(self, path):
         """all call sites in the crate whose (resolved or declared) callee is exactly `path`"""
         return list(self.all_calls().get(path, []))
@@ -445,6 +467,7 @@ class Path:
         self.conds = []      # (term, value or ('not', [values]), block)
         self.effects = []    # ('call', path, args, block, dest_term) | ('write', place_term, value, block)
         self.blocks = []
+        self.refroot = {}    # local holding a &mut borrow -> local it (transitively) borrows from
         self.end = None      # 'return' | 'loop' | 'await-pending' | 'unreachable' | 'diverge' | 'yield'
         self.ret = None
 
@@ -455,6 +478,7 @@ class Path:
         p.conds = list(self.conds)
         p.effects = list(self.effects)
         p.blocks = list(self.blocks)
+        p.refroot = dict(self.refroot)
         return p
 
 
@@ -477,8 +501,15 @@ class Sym:
         return ('local', l, b.local_name(l))
 
     def place_term(self, p, place):
-        t = self.local_term(p, place['l'])
-        for e in place['p']:
+        proj = place['p']
+        if (self.body.kind == 'coroutine' and place['l'] == 1 and proj and isinstance(proj[0], dict) and 'f' in proj[0]
+                and 1 not in p.env):
+            # captured parameter of an async fn: position = upvar index + 1
+            t = ('param', proj[0]['f'] + 1, proj[0]['n'])
+            proj = proj[1:]
+        else:
+            t = self.local_term(p, place['l'])
+        for e in proj:
             t = self.project(p, t, e)
         return t
 
@@ -497,6 +528,8 @@ class Sym:
                     nt = ('bin', t[1][:-len('WithOverflow')], t[2], t[3])
                 else:
                     nt = ('overflow', t)
+            elif n == '0' and t[0] == 'downcast' and t[2] == 'Ready' and t[1][0] == 'poll':
+                nt = ('await', t[1][1])
             else:
                 nt = ('field', t, n)
         elif isinstance(e, dict) and 'dc' in e:
@@ -581,6 +614,35 @@ class Sym:
         # a write into a local aggregate we know: update it in place when possible
         p.effects.append(('write', key, term, block))
 
+    def track_mut_borrow(self, p, place, rv):
+        """remember which local a `&mut` temporary borrows from (so that a callee mutating through it
+        invalidates what we know about that local)"""
+        if place['p']:
+            return
+        dst = place['l']
+        root = None
+        if rv['k'] == 'ref' and rv.get('mut'):
+            src = rv['place']
+            if '*' not in [e for e in src['p'] if isinstance(e, str)]:
+                root = src['l']
+            else:
+                root = p.refroot.get(src['l'])
+        elif rv['k'] == 'use' and rv['op']['k'] in ('move', 'copy') and not rv['op']['place']['p']:
+            root = p.refroot.get(rv['op']['place']['l'])
+        if root is not None:
+            p.refroot[dst] = root
+        elif dst in p.refroot:
+            del p.refroot[dst]
+
+    def mutate_roots(self, p, t, path, block, args):
+        for i, a in enumerate(t['args']):
+            if a['k'] in ('move', 'copy') and not a['place']['p']:
+                root = p.refroot.get(a['place']['l'])
+                if root is not None:
+                    old = self.local_term(p, root)
+                    # ('mutated', previous value, callee, other argument terms, site)
+                    p.env[root] = ('mutated', old, path, tuple(x for j, x in enumerate(args) if j != i), block)
+
     def kill_mut_args(self, p, args):
         for a in args:
             if a[0] == 'ref' and a[2]:
@@ -618,6 +680,7 @@ class Sym:
             blk = body.blocks[b]
             for s in blk['stmts']:
                 if s['k'] == 'assign':
+                    self.track_mut_borrow(p, s['place'], s['rv'])
                     self.assign(p, s['place'], self.rv_term(p, s['rv'], b), b)
                 elif s['k'] == 'set_discr':
                     pass
@@ -639,12 +702,14 @@ class Sym:
                     if known is not None and known != v:
                         continue
                     q = p.clone()
-                    q.conds.append((d, v, b))
+                    if known is None:
+                        q.conds.append((d, v, b))
                     stack.append((tb, q))
                 if known is None or known not in vals:
                     if body.blocks[t['otherwise']]['term']['k'] != 'unreachable':
                         q = p.clone()
-                        q.conds.append((d, ('not', tuple(vals)), b))
+                        if known is None:
+                            q.conds.append((d, ('not', tuple(vals)), b))
                         stack.append((t['otherwise'], q))
             elif k == 'call':
                 c = callee(t)
@@ -659,6 +724,7 @@ class Sym:
                     term = simplify_call(term, c, t)
                 p.effects.append(('call', path, tuple(args), b, c))
                 self.kill_mut_args(p, args)
+                self.mutate_roots(p, t, path, b, args)
                 if t['target'] is None:
                     p.end = 'diverge'
                     self.paths.append(p)
@@ -782,7 +848,7 @@ def simplify_call(term, c, t):
     ex = t.get('ex', [])
     # await: poll(pin(ref(ref(into_future(F))))).Ready.0 is turned into ('await', F) at the downcast;
     # here we only tag the poll
-    if c.get('trait') == 'std::future::Future' and c['path'].endswith('::poll') and 'd:Await' in ex:
+    if c['path'].endswith('Future::poll') and 'd:Await' in ex:
         fut = args[0]
         # strip Pin::new_unchecked(&mut *&mut X)
         while True:
@@ -1138,3 +1204,17 @@ def bool_table(paths, classify):
         t = Table.build([q], classify, lambda _p, o=outcome: o)
         rows.extend(t.rows)
     return Table(rows)
+
+
+def coroutine_param_env(body):
+    """for the coroutine body of an async fn: locals initialised in bb0 from the captured parameters
+    (`_k = move _1.<upvar>`) mapped to ('param', position, name); position 1 = first parameter"""
+    env = {}
+    if not body.blocks:
+        return env
+    for s in body.blocks[0]['stmts']:
+        if s['k'] == 'assign' and not s['place']['p'] and s['rv']['k'] == 'use' and s['rv']['op']['k'] in ('move', 'copy'):
+            pl = s['rv']['op']['place']
+            if pl['l'] == 1 and len(pl['p']) == 1 and isinstance(pl['p'][0], dict) and 'f' in pl['p'][0]:
+                env[s['place']['l']] = ('param', pl['p'][0]['f'] + 1, pl['p'][0]['n'])
+    return env
